@@ -29,7 +29,41 @@ func SelfTestRewriter(n int, seed int64, solverKind string) (checked int, err er
 			}
 			return tb.Const(w, interesting[r.Intn(len(interesting))])
 		}
-		switch r.Intn(12) {
+		switch r.Intn(14) {
+		case 12, 13: // constant table lookups, possibly composed (exercises the constant-tree canonicaliser)
+			if w == 8 || w == 16 {
+				k := 1 + r.Intn(6)
+				tbl := make([]*Term, 1<<k)
+				kind := r.Intn(3)
+				off := uint64(r.Intn(5))
+				for i := range tbl {
+					switch kind {
+					case 0:
+						tbl[i] = tb.Const(w, uint64(r.Intn(4))*37)
+					case 1:
+						tbl[i] = tb.Const(w, uint64(i)+off) // identity (+offset)
+					default:
+						tbl[i] = tb.Const(w, uint64(r.Intn(1<<k)))
+					}
+				}
+				var idx *Term
+				if r.Intn(2) == 0 {
+					// inner lookup producing a k-bit index
+					inner := make([]*Term, 1<<k)
+					for i := range inner {
+						inner[i] = tb.Const(64, uint64(r.Intn(1<<k)))
+					}
+					src := gen(tb, r, 16, 0)
+					lo := r.Intn(16 - k + 1)
+					idx = tb.Select(inner, tb.ZExt(tb.Extract(src, lo+k-1, lo), 64))
+				} else {
+					src := gen(tb, r, 16, depth-1)
+					lo := r.Intn(16 - k + 1)
+					idx = tb.ZExt(tb.Extract(src, lo+k-1, lo), 64)
+				}
+				return tb.Select(tbl, idx)
+			}
+			return gen(tb, r, w, depth-1)
 		case 0, 1, 2, 3:
 			ops := []Op{OpAdd, OpSub, OpMul, OpBAnd, OpBOr, OpBXor, OpShl, OpLShr, OpAShr, OpUDiv, OpURem, OpSDiv, OpSRem}
 			op := ops[r.Intn(len(ops))]
